@@ -7,7 +7,9 @@ set -u
 P=$1; N=${2:-$1}; shift; shift || true
 SRC=/tmp/seed-$N/_seed
 DST=/verif/seeded/$N
-mkdir -p $DST && cp $SRC/patch.diff $SRC/meta.json $DST/ 2>/dev/null; cp $SRC/demo.* $DST/ 2>/dev/null
+mkdir -p $DST
+# first evaluation: take the seeding agent's files; later evaluations keep the stored copy (and its coordinator_eval)
+if [ ! -s $DST/meta.json ]; then cp $SRC/patch.diff $SRC/meta.json $DST/ 2>/dev/null; cp $SRC/demo.* $DST/ 2>/dev/null; fi
 W=/var/tmp/verif-seedeval-$N
 git -C /repo worktree remove --force $W >/dev/null 2>&1; rm -rf $W
 git -C /repo worktree add --detach -f $W HEAD >/dev/null 2>&1 || { echo "worktree failed"; exit 2; }
